@@ -12,6 +12,22 @@ from .values import Val, PyC, PyList, SymObj, OutOfSubset, fresh_name
 from . import smt
 
 REG = {}
+MACROS = {}      # name -> (parameter names, expression source): expanded in both compilations
+
+
+def macro(name, params, src):
+    MACROS[name] = (list(params), src)
+
+
+class _Subst(ast.NodeTransformer):
+    def __init__(self, mapping):
+        self.mapping = mapping
+
+    def visit_Name(self, node):
+        if node.id in self.mapping:
+            import copy
+            return copy.deepcopy(self.mapping[node.id])
+        return node
 
 
 class Contract:
@@ -257,6 +273,11 @@ class SpecEval:
     def ev_Call(self, n):
         if isinstance(n.func, ast.Name):
             f = n.func.id
+            if f in MACROS:
+                params, src = MACROS[f]
+                body = ast.parse(src, mode="eval").body
+                body = _Subst(dict(zip(params, n.args))).visit(body)
+                return self.ev(ast.fix_missing_locations(body))
             if f in ("forall", "exists"):
                 lam = n.args[0]
                 assert isinstance(lam, ast.Lambda)
@@ -381,4 +402,7 @@ SPEC_FUNS.update({
     "all_present": (["V", "V"], "B", "all_present"), "rbd": (["V"], "V", "rbd"),
     "props_accepts": (["V", "S"], "B", "props_accepts"),
     "outcome_of": (["V", "V"], "V", "outcome_of"),
+    "d6_multiple": (["V", "V"], "B", "d6_multiple"),
+    "vrejects": (["V", "V"], "B", "vrejects"), "validators_of": (["V"], "V", "validators_of"),
+    "csem": (["V", "V"], "B", "csem"), "cbuild": (["V", "V"], "V", "cbuild"), "accepts_all": (["V", "V"], "B", "accepts_all"),
 })
